@@ -83,7 +83,11 @@ func c08Run(in c08In) c08Out {
 		case "stopped_sql":
 			n.Chan.SQL = false
 		case "wrong_source":
+			// a running replica of ANOTHER, reachable source (the rest of the cluster failed over to it)
 			n.Chan.Source = "h9"
+			if _, ok := w.Nodes["h9"]; !ok {
+				w.AddNode(&vk.Node{Host: "h9", UUID: hostUUID("h9"), Up: true, Executed: gset("h1", "1-100")})
+			}
 		case "is_master":
 			n.Chan = nil
 		case "refusing":
